@@ -1041,6 +1041,6 @@ var subTwin = runlog.Register(&runlog.Sub[Case]{
 	Run:  runCase,
 })
 
-func TestTwinDifferential(t *testing.T) { subTwin.Check(t, 170000, 3000000) }
+func TestTwinDifferential(t *testing.T) { subTwin.Check(t, 170000, 1600000) }
 
 func TestReplay(t *testing.T) { runlog.ReplayMain(t) }
